@@ -77,7 +77,7 @@ class Config:
         tab = []
         for rd, d in zip(self.real_devices, self.devs):
             per_dev = []
-            for k in range(1, len(d["chs"]) + 1):
+            for k in range(1, len(d["ids"] if "ids" in d else d["chs"]) + 1):
                 ch = D.real_channel(rd, d, k)
                 row = []
                 for p in self.real_pulses:
@@ -96,7 +96,7 @@ class Config:
         SP, CF = [], []
         for rd, d in zip(self.real_devices, self.devs):
             sp_dev, cf_dev = [], []
-            for k in range(1, len(d["chs"]) + 1):
+            for k in range(1, len(d["ids"] if "ids" in d else d["chs"]) + 1):
                 ch = D.real_channel(rd, d, k)
                 sps, cfs = [], []
                 if ch.supports_eom():
